@@ -79,7 +79,8 @@ def main():
         f.write('| change | property | caught by | not caught by | first violation |\n|---|---|---|---|---|\n')
         for name, prop, r in rows:
             caught = [k for k, v in sorted(r.items()) if v['violations'] > 0]
-            missed = [k for k, v in sorted(r.items()) if v['violations'] == 0]
+            missed = [k + (' (MACHINERY FAILURE, exit %s: a miss caused by the harness itself)' % v['rc'] if v['rc'] not in (0, 1) else '')
+                      for k, v in sorted(r.items()) if v['violations'] == 0]
             first = next((v['first'] for k, v in sorted(r.items()) if v['first']), '')
             f.write('| %s | %s | %s | %s | %s |\n' % (name, prop, ', '.join(caught) or '-', ', '.join(missed) or '-', first.replace('|', '\\|')))
     print('written selftest/RESULTS.md')
